@@ -179,13 +179,13 @@ def check_description(args):
             for seq in seqs:
                 st['states'] += 1
                 held.clear()
-                gc.collect()
                 for step in seq:
                     st['transitions'] += 1
                     if step == 'gc':
                         # keep the first dataset alive in half of the histories: here we drop it
                         held.clear()
-                        gc.collect()
+                        if tier == 'thorough':
+                            gc.collect()
                         continue
                     exp = reference(parts, step)
                     try:
